@@ -830,7 +830,11 @@ class Ev:
 			k = max(0, n.conc)
 			return Val(STR, z3.Concat(*([s.term] * k)) if k > 1 else (s.term if k == 1 else z3.StringVal('')))
 		f = self.rec('rf_strrep', [STR, INT], STR, lambda a, k, me: z3.If(k <= 0, z3.StringVal(''), z3.Concat(me(a, k - 1), a)))
-		return Val(STR, f(s.term, n.term))
+		res = f(s.term, n.term)
+		if s.is_conc():
+			# consequence of the recursive definition (induction on n): k copies of a string of length m have length m * max(k, 0)
+			self.st.assume(z3.Length(res) == z3.If(n.term > 0, len(s.conc) * n.term, 0))
+		return Val(STR, res)
 
 	def list_repeat(self, s: Val, n: Val) -> Val:
 		assert isinstance(s.ty, TList)
@@ -1017,6 +1021,10 @@ class Ev:
 		base = self.eval(n.value)
 		if isinstance(n.slice, ast.Slice):
 			return self.slice(base, n.slice)
+		if isinstance(base.ty, TRec) and self.mode != 'spec':
+			# obj[key] on a repo class: its __getitem__ (by contract or inlined)
+			call = ast.Call(ast.Attribute(n.value, '__getitem__', ast.Load()), [n.slice], [])
+			return self.eval(ast.fix_missing_locations(ast.copy_location(call, n)))
 		idx = self.eval(n.slice)
 		return self.index(base, idx)
 
